@@ -237,6 +237,64 @@ def r6_step_count(ctx):
                 rep.bad("C20.R6", C, it, "the step count mentions t0, t1 and dt but not the span t1 - t0 (nor a grid from t0 to t1)", f"{rel}:{loop.lineno}")
 
 
+SOLN = "cardillo/solver/solution.py"
+
+
+def iterator_rows(ctx):
+    """"Iterating the solution yields one record per instant equal to the corresponding ROWS": every element selection the iterator (and its
+    helpers) applies to a solution field with the running index selects along the LEADING axis (`field[self._index]`).  A selection along
+    another axis (`field[:, i]`, `field[..., i]`) is admitted only under a guard that cannot hold for a stored field with one row per instant
+    (`field.shape[0] == 0`, the empty case); a guard that compares another axis with the number of instants holds for a properly stored field
+    whose width happens to equal the number of instants (6 velocities, 6 steps) and transposes that record."""
+    from ..model import guards_of
+    rep = ctx.rep
+    mod = ctx.repo.module(SOLN)
+    fns = [f for q, f in mod.defs().items() if isinstance(f, ast.FunctionDef) and ".SolutionIterator." in "." + q + "." or (isinstance(f, ast.FunctionDef) and "SolutionIterator" in q)]
+    nxt = [f for f in fns if f.name == "__next__"]
+    if not nxt:
+        raise AnalysisError(f"{SOLN}: SolutionIterator.__next__ vanished")
+    n = 0
+    for f in fns:
+        if f.name in ("__init__", "__iter__"):
+            continue
+        C = f"{SOLN}:SolutionIterator.{f.name}"
+        for w in ast.walk(f):
+            if not isinstance(w, ast.Subscript):
+                continue
+            idx = w.slice
+            elts = idx.elts if isinstance(idx, ast.Tuple) else [idx]
+            pos = [k for k, e in enumerate(elts) if norm_src(e) in ("self._index", "index", "i")]
+            if not pos:
+                continue
+            n += 1
+            if pos[0] == 0 and len(elts) >= 1 and not any(isinstance(e, ast.Constant) and e.value is Ellipsis for e in elts[:pos[0]]):
+                rep.ok("C20.R10", C, f"`{norm_src(w)[:60]}` selects the record along the leading axis")
+                continue
+            # selection along another axis: find the guarding condition (IfExp test or enclosing if)
+            cond = None
+            par = getattr(w, "_parent", None)
+            child = w
+            while par is not None and par is not f:
+                if isinstance(par, ast.IfExp) and child is par.body:
+                    cond = par.test
+                    break
+                if isinstance(par, ast.If) and any(child is x for x in par.body):
+                    cond = par.test
+                    break
+                child, par = par, getattr(par, "_parent", None)
+            cs = norm_src(cond) if cond is not None else ""
+            empty_only = cond is not None and isinstance(cond, ast.Compare) and len(cond.ops) == 1 and isinstance(cond.ops[0], ast.Eq) \
+                and norm_src(cond.comparators[0]) == "0" and "shape[0]" in norm_src(cond.left)
+            if empty_only:
+                rep.ok("C20.R10", C, f"`{norm_src(w)[:50]}` (other axis) only under `{cs[:50]}`: unreachable for a field with one row per instant")
+            else:
+                rep.bad("C20.R10", C, w, f"`{norm_src(w)[:60]}` selects the record along another axis than the leading one" + (f" under `{cs[:70]}`" if cs else "") +
+                        ": this holds for a properly stored (instants x width) field whose width equals the number of instants, whose records then are columns (time histories of "
+                        "one component) instead of rows", f"{SOLN}:{w.lineno}")
+    if n < 1:
+        raise AnalysisError(f"{SOLN}: the iterator's element selection was not found")
+
+
 def robust_step_count(ctx):
     """C20 quantifies over final times that are multiples of the step in decimal but not in binary.  numpy documents that the length of
     np.arange(start, stop, step) with a non-integer step is ceil((stop - start) / step) evaluated in floating point, which lands on
@@ -350,9 +408,11 @@ def run(ctx):
     rep.rule("C20.R4", "Solution fields are array expressions of the row lists", 40)
     rep.rule("C20.R5", "ScipyIVP / ScipyDAE field shapes", 8)
     rep.rule("C20.R6", "the step loop's iterable is a function of the initial time, the final time and the step", 4)
+    rep.rule("C20.R10", "the solution iterator selects each record along the leading (instant) axis", 1)
+    iterator_rows(ctx)
     rep.rule("C20.R9", "the number of steps is rounded with a tolerance: no float-step np.arange / bare ceil of a float quotient decides where a time grid ends", 7)
     robust_step_count(ctx)
-    rep.rule("C20.R8", "static Newton: all fields of a returned Solution have the same number of rows (early, truncated return and final return)", 2)
+    rep.rule("C20.R8", "static Newton: all fields of a returned Solution have the same number of rows (early, truncated return and final return)", 1)
     newton_row_counts(ctx)
     rep.rule("C20.R7", "row k of every stored field still is what was stored at instant k (K11 may-alias analysis)", 8)
     from .. import alias
@@ -573,4 +633,9 @@ NEUTRAL = [
          old="    n_steps = max(1, int(np.ceil((t1 - t0) / dt - 1e-9)))", new="    quotient = (t1 - t0) / dt\n    n_steps = max(1, int(np.ceil(quotient - 1.0e-9)))"),
     dict(id="c20-n1", canary=True, what="Rattle: step count from the span (t1 - t0) / dt", file=RT,
          old="        pbar = tqdm(time_grid(self.t0, self.t1, self.dt)[:-1])", new="        n_steps = len(time_grid(self.t0, self.t1, self.dt)) - 1\n        pbar = tqdm(range(n_steps))"),
+]
+MUTANTS += [
+    dict(id="c20-r10-seed", canary=True, what="[seeded by sub-agent] iterator slices along the last axis whenever that axis has as many entries as there are instants", file=SOLN,
+         old="                                    if self._solution.__getattribute__(key).shape[0]\n                                    == 0\n",
+         new="                                    if self._solution.__getattribute__(key).shape[-1]\n                                    == len(self._solution.t)\n", expect="C20.R10"),
 ]
